@@ -594,6 +594,14 @@ def shrink_candidates(plan):
     """Yields plans that are simpler in their arguments (file contents, kw, buffer size)."""
     import copy
     files = plan["world"]["files"]
+    # sequential history with the file rewrites first (then drop the ones that are not needed)
+    if plan.get("schedule") or any(op["op"] == "fs_write" for ops in plan["tasks"][1:] for op in ops):
+        writes = [op for ops in plan["tasks"] for op in ops if op["op"] == "fs_write"]
+        rest = [[op for op in ops if op["op"] != "fs_write"] for ops in plan["tasks"]]
+        q = copy.deepcopy(plan)
+        q["tasks"] = [writes] + [t for t in rest if t]
+        q["schedule"] = []
+        yield q
     used_f = {op.get("path") for ops in plan["tasks"] for op in ops if "path" in op}
     used_p = {op.get("pattern") for ops in plan["tasks"] for op in ops}
     if set(files) - used_f or set(plan["world"]["patterns"]) - used_p:
